@@ -22,4 +22,22 @@ MUTANTS = [
      "        self.setup.executor.apply_as_non_assertion(environment, None, None, None)\n"
      "        return svh.new_svh_success()",
      'BeforeAssertPhaseInstructionFromParts.validate_post_setup : ensures[success; runs nothing'),
+    # --- the main step of an embryo; the construction of the parts
+    ('i7-embryo-hard-error-escapes', 'C03', 'exactly_lib/impls/instructions/multi_phase/utils/instruction_part_utils.py',
+     "        except HardErrorException as ex:\n            return sh.new_sh_hard_error(ex.error)",
+     "        except KeyError as ex:\n            return sh.new_sh_hard_error(ex.error)",
+     'MainStepExecutorFromMainStepExecutorEmbryo.apply_as_non_assertion : raises_only'),
+    ('i7-embryo-main-result-ignored', 'C03', 'exactly_lib/impls/instructions/multi_phase/utils/instruction_part_utils.py',
+     "        return self.result_translator.translate_for_assertion(result)",
+     "        return pfh.new_pfh_pass()",
+     'MainStepExecutorFromMainStepExecutorEmbryo.apply_as_assertion : ensures[a HardErrorException of main'),
+    ('i7-parts-of-embryo-without-its-validator', 'C03',
+     'exactly_lib/impls/instructions/multi_phase/utils/instruction_part_utils.py',
+     "    return InstructionParts(instruction.validator,",
+     "    return InstructionParts(None,",
+     'instruction_parts_from_embryo : ensures[the validator of the parts is THE validator of the embryo'),
+    ('i7-parser-validates-other-parts', 'C03', _FP % 'cleanup',
+     "        return CleanupPhaseInstructionFromParts(instruction_parts)",
+     "        return CleanupPhaseInstructionFromParts(InstructionParts(None, instruction_parts.executor))",
+     'cleanup.utils.instruction_from_parts:Parser.parse : ensures[the instruction of the phase'),
 ]
